@@ -1,8 +1,8 @@
 #!/verif/.venv/bin/python
 # Replay of a solver counterexample against the unmodified code (no shims).
-# property=C06 kernel=program label=channel:det
+# property=C06 kernel=program label=channel:phase
 import sys
 sys.path[:0] = ['/repo' + "/pulser-core", '/repo' + "/pulser-simulation", "/verif"]
 from symx.replay import replay
-sys.exit(replay(check='checks.c06', kernel='program', shape={'program': 'eom_modify', 'ext': [0, 3]},
-                assignment={'a1': '1/1024', 'd1': '-1/1024'}, label='channel:det'))
+sys.exit(replay(check='checks.c06', kernel='program', shape={'program': 'detuned_delay_phase', 'ext': [0, 3]},
+                assignment={'a0': '1/1024', 'd0': '0/1', 'd1': '0/1', 'a1': '1/1024', 'd2': '0/1', 'a2': '1/1024', 'd3': '0/1', 'd4': '0/1', 'a3': '1/1024', 'd5': '0/1'}, label='channel:phase'))
